@@ -52,6 +52,13 @@ structure RV where
   v : Val
   deriving Repr, Inhabited
 
+/-- The provenance policy: the flag carried by values handed out by containers (slice elements, map
+entries, for-in variables) and by Go functions declared to return interface{}.  The real
+interpreter is the instance `wrap := true`; C20 proves that the flag-free reading `wrap := false`
+is indistinguishable from it. -/
+class Prov where
+  wrap : Bool
+
 def RV.plain (v : Val) : RV := ⟨false, v⟩
 def RV.wrap (v : Val) : RV := ⟨true, v⟩
 
